@@ -300,15 +300,16 @@ class UnionMatcher(AdditiveBiMatcher):
             bq = b.block_quality()
             if aq + bq > minquality:
                 break
-            sk = a.skip_to_quality(minquality - b.max_quality())
-            if not sk and b.is_active():
-                sk = b.skip_to_quality(minquality - (a.max_quality()
-                                                     if a.is_active() else 0))
-            if sk:
-                skipped += sk
-            else:
-                self.next()
+            a_id = a.id()
+            b_id = b.id()
+            skipped += a.skip_to_quality(minquality - b.max_quality())
+            if a.is_active() and a.id() == a_id:
+                skipped += b.skip_to_quality(minquality - a.max_quality())
             self._id = None
+            if (a.is_active() and b.is_active()
+                and a.id() == a_id and b.id() == b_id):
+                # Nothing moved: step over the current posting
+                self.next()
 
         if a.is_active() and not b.is_active():
             skipped += a.skip_to_quality(minquality)
@@ -808,13 +809,15 @@ class AndMaybeMatcher(AdditiveBiMatcher):
                 break
             if a.block_quality() + b.block_quality() > minquality:
                 break
-            sk = a.skip_to_quality(minquality - b.max_quality())
-            if sk:
-                skipped += sk
-                if a.is_active() and b.is_active():
-                    b.skip_to(a.id())
-            else:
+            a_id = a.id()
+            skipped += a.skip_to_quality(minquality - b.max_quality())
+            if not a.is_active():
+                break
+            if a.id() == a_id:
+                # Nothing moved: step over the current posting
                 self.next()
+            elif b.is_active():
+                b.skip_to(a.id())
         return skipped
 
     def weight(self):
